@@ -23,7 +23,15 @@ def roundtrip_thunk(cls, with_rest=True):
     def thunk():
         P = E.cur()
         P.top_class = cls
-        obj = gen.sym_object(P, cls, 'o')
+        from cryptoparser.common import base as RB
+        if issubclass(cls, RB.VariantParsableBase):
+            # a dispatcher: its parser returns the variant object itself, so the round trip is stated on the variants
+            obj = gen.make_one_of(P, list(cls._get_variant_types()), 'o', 1)
+        elif issubclass(cls, RB.OpaqueEnumParsable):
+            # a factory of enum members (the members compose themselves)
+            obj = gen.make(P, ('enum', cls.get_enum_class()), 'o', 1)
+        else:
+            obj = gen.sym_object(P, cls, 'o')
         P.inputs['object'] = obj
         snapshot = vc.clone(obj)
         out = vc.outcome_of(lambda: I.call(I.getattr_(obj, 'compose'), [], {}))
